@@ -32,7 +32,44 @@ static void op_rssi(int nt, char **t) {
     __real_free(b);
 }
 
+/* rtgen present freq chfl rate sig fl rx tx mk mf mm txp ts acc unit tsfl rts data nant a0n a0s
+ * generated into an exactly LIBWIFI_MAX_RADIOTAP_LEN-byte heap block, then decoded again */
+static void op_rtgen(int nt, char **t) {
+    (void) nt;
+    struct libwifi_radiotap_info in; memset(&in, 0, sizeof in);
+    in.present = (uint32_t) tok_ull(t[1]);
+    in.channel.freq = (uint16_t) tok_ll(t[2]); in.channel.flags = (uint16_t) tok_ll(t[3]);
+    in.rate_raw = (int8_t) tok_ll(t[4]); in.signal = (int8_t) tok_ll(t[5]); in.flags = (uint8_t) tok_ll(t[6]);
+    in.rx_flags = (uint16_t) tok_ll(t[7]); in.tx_flags = (uint16_t) tok_ll(t[8]);
+    in.mcs.known = (uint8_t) tok_ll(t[9]); in.mcs.flags = (uint8_t) tok_ll(t[10]); in.mcs.mcs = (uint8_t) tok_ll(t[11]);
+    in.tx_power = (int8_t) tok_ll(t[12]);
+    in.timestamp.timestamp = tok_ull(t[13]); in.timestamp.accuracy = (uint16_t) tok_ll(t[14]);
+    in.timestamp.unit = (uint8_t) tok_ll(t[15]); in.timestamp.flags = (uint8_t) tok_ll(t[16]);
+    in.rts_retries = (uint8_t) tok_ll(t[17]); in.data_retries = (uint8_t) tok_ll(t[18]);
+    in.antenna_count = (uint8_t) tok_ll(t[19]);
+    for (int k = 0; k < in.antenna_count && k < LIBWIFI_MAX_RADIOTAP_ANTENNAS; k++) {
+        in.antennas[k].antenna_number = (uint8_t) (tok_ll(t[20]) + k); in.antennas[k].signal = (int8_t) (tok_ll(t[21]) + k);
+    }
+    unsigned char *buf = __real_malloc(LIBWIFI_MAX_RADIOTAP_LEN);
+    memset(buf, 0xEE, LIBWIFI_MAX_RADIOTAP_LEN);
+    size_t r;
+    LIB(r = libwifi_create_radiotap(&in, (char *) buf));
+    if (r > LIBWIFI_MAX_RADIOTAP_LEN) { printf("rtgen TOO-LONG %zu", r); __real_free(buf); return; }
+    printf("rtgen %zu ", r); out_hex(buf, r);
+    int touched = 0;
+    for (size_t i = r; i < LIBWIFI_MAX_RADIOTAP_LEN; i++) touched |= buf[i] != 0xEE;
+    if (touched) printf(" BEYOND");
+    /* decode exactly the bytes produced */
+    unsigned char *gen = __real_malloc(r); memcpy(gen, buf, r);
+    struct libwifi_radiotap_info out; memset(&out, 0x5A, sizeof out);
+    int pr;
+    LIB(pr = libwifi_parse_radiotap_info(&out, gen, r));
+    if (pr != 0) printf(" parse=err"); else { printf(" parse=ok "); print_rtinfo(&out); }
+    __real_free(gen); __real_free(buf);
+}
+
 const struct op ops_rtap[] = {
+    {"rtgen", op_rtgen},
     {"rtap", op_rtap},
     {"rssi", op_rssi},
     {NULL, NULL},
